@@ -502,7 +502,17 @@ func runIn(world, layout, src string) runResult {
 	restoreEnv()
 	settings.SetDefault(defs.SandboxPathSetting, fx.root)
 	before := fx.snapshot()
+	// Watchdog: a program that never returns cannot be stopped in-process, and
+	// would otherwise sit there until the driver's budget kills the shard
+	// without saying why. Five minutes for a millisecond program is not a
+	// verdict about anything, on any machine load; it ends the shard as a
+	// harness error (exit 2, inconclusive) and names the program.
+	watchdog := time.AfterFunc(5*time.Minute, func() {
+		fmt.Printf("HARNESS-ERROR property=C26 a generated program did not return within 5 minutes (non-terminating runtime call; not a C26 verdict); layout=%s world=%s program:\n%s\n", layout, world, src)
+		os.Exit(2)
+	})
 	r := egorun.Run(src, egorun.Config{Types: "dynamic", Extensions: true, EntryPoint: "main", Sandbox: true})
+	watchdog.Stop()
 	_ = os.Chdir(fx.base)
 	restoreEnv()
 	settings.SetDefault(defs.SandboxPathSetting, fx.root)
